@@ -13,6 +13,7 @@ NR = 'rnacos::naming::cluster::model::NamingRouteRequest'
 def run(ck, fb):
     _run15(ck, fb)
     r15i(ck, fb)
+    r15k(ck, fb)
     ck.borrow('rules.c14', {'R14g': 'R15j'}, 'a refused cluster message is a lost registry / view change: the nodes cannot converge on it')
 
 
@@ -432,3 +433,47 @@ def r15i(ck, fb, R='R15i'):
                        'an instance of a peer snapshot can be left out without a look at the local registry: a node that restarted never gets back the '
                        'instances it owned (their clients may be gone, so no beat re-creates them) while the peers keep them',
                        'skipped only after a lookup' if skip else 'never skipped')
+
+
+def r15k(ck, fb, R='R15k'):
+    ck.rule(R, 'a change of an instance\'s value on this node is told to the other nodes whatever the origin of the instance: in NamingActor::do_notify, '
+               'for the tags New and UpdateValue, with a delay-notify actor and an instance at hand, every path sends InstanceDelayNotifyRequest::UpdateInstance '
+               '(walk under tag x Some x Some, every other condition free - a test of from_cluster / from_grpc on that way is a way around the send). Only a '
+               'removal (Remove, told by the node that manages the instance) and a heartbeat (UpdateTime, not for gRPC instances) may depend on the origin; '
+               'both must stay possible. A console update of a gRPC instance that is applied on another node than the one holding the connection otherwise '
+               'never reaches the remaining nodes: they return the old weight / enabled state for ever')
+    b = ck.body(NA + 'do_notify', R)
+    if not b:
+        return
+    names = {b.local_name(l): l for l in range(1, b.argc + 1)}
+    if 'tag' not in names or 'instance' not in names:
+        ck.bad(R, 'do_notify:parameters', b.where(), 'do_notify no longer takes tag / instance: the rule does not know this function')
+        return
+
+    def classify(d, term):
+        if d['k'] != 'discr':
+            return None
+        o = cfg.resolve_place(b, d['pl']) if not isinstance(d['pl'], int) else cfg.trace_local(b, d['pl'])
+        if o['k'] == 'arg' and o['l'] == names['tag']:
+            return ('variant', 'tag')
+        if o['k'] == 'arg' and o['l'] == names['instance']:
+            return ('variant', 'inst')
+        if o['k'] == 'place' and o['fields'][-1:] == ['cluster_delay_notify']:
+            return ('variant', 'addr')
+        return None
+    from rn import walk
+    MSG = r'InstanceDelayNotifyRequest$'
+    upd = {s0.bb for (s0, m, v, a) in util.sends(b, MSG, 'UpdateInstance')}
+    rem = {s0.bb for (s0, m, v, a) in util.sends(b, MSG, 'RemoveInstance')}
+    beat = {s0.bb for (s0, m, v, a) in util.sends(b, MSG, 'UpdateInstanceBeat')}
+    ck.floor(R, 'delay-notify sends in do_notify', len(upd) + len(rem) + len(beat), 3)
+    for tag in ('New', 'UpdateValue'):
+        env = {'tag': tag, 'inst': 'Some', 'addr': 'Some'}
+        r = walk.walker(b, classify, env)
+        esc = walk.escapes_under(b, classify, env, upd)
+        ck.require(bool(upd & r) and not esc, R, 'do_notify:%s:always-broadcast' % tag, b.where(esc[0]) if esc else b.where(),
+                   'for tag %s, with a delay-notify actor and an instance, do_notify can return without sending UpdateInstance (reachable %s; the ways around '
+                   'the send end at blocks %s): a value change this node applied stays local' % (tag, bool(upd & r), esc), 'UpdateInstance on every path')
+    for (tag, sites, what) in (('Remove', rem, 'RemoveInstance'), ('UpdateTime', beat, 'UpdateInstanceBeat')):
+        r = walk.walker(b, classify, {'tag': tag, 'inst': 'Some', 'addr': 'Some'})
+        ck.require(bool(sites & r), R, 'do_notify:%s:can-send' % tag, b.where(), 'for tag %s no %s can be sent any more' % (tag, what))
